@@ -369,7 +369,7 @@ def channel_capacity():
         # statements are bound to the code by traces and replays, so a different real value shows up as DRIFT
         print("NOTE design-parameter scan: %s; CAP taken as 5" % ex, file=sys.stderr, flush=True)
         return 5
-    return min(cap, 8)      # (the model's bound on the capacity; larger channels behave alike for M <= CAP + 1)
+    return cap
 
 
 # --------------------------------------------------------------------------------------------
